@@ -42,10 +42,10 @@ def run(ctx):
                     continue
                 jobs += js
     # yymore() across refills: inductive yylex step whose pre-state carries a yymore() prefix (pointer and %array)
-    for s in common.select(ctx, corpus.specs(names=['h_min'] if quick else ['h_min', 'h_words', 'backup'])):
+    for s in common.select(ctx, corpus.specs(names=['h_min', 'tc_min', 'tc_fixed_trail'] if quick else ['h_min', 'h_words', 'backup', 'tc_min', 'tc_fixed_head', 'tc_fixed_trail', 'tc_both_fixed', 'tc_compete'])):
         for c in [C('Cem'), C('array', options=['array', 'yylmax=16'])] + ([] if quick else [C('r', api='r')]):
             for (bs, m) in ([(2, 1)] if quick else [(2, 1), (3, 1), (3, 2)]):
-                js, g = E.e3w_jobs(ctx, s, c, bs, m, maxnul=(0 if quick else 1), witness=(c.name == 'Cem' and (bs, m) == (2, 1)),
+                js, g = E.e3w_jobs(ctx, s, c, bs, m, maxnul=(0 if quick else 1), witness=(c.name == 'Cem' and (bs, m) == (2, 1) and s.name == 'h_min'),
                                    timeout=(280 if quick else 1800), mem_mb=(10000 if quick else 24000), more=True)
                 if not g.ok:
                     common.gen_ok(ctx, g, s, c, 'E3 more')
